@@ -126,7 +126,9 @@ def oracle(case):
             if r[0] == "foreign":
                 F.append("foreign-exception: %s raises %s [step %d %r]" % (H.step_kind(step), r[1], k, step))
             if json.dumps(after, sort_keys=True) != json.dumps(before, sort_keys=True):
-                F.append("changed-by-failed-%s-%s: %s [step %d %r]" % (H.step_kind(step), r[1], _diff(before, after), k, step))
+                # the version was still unknown when the call was made: the (open) finding unknown-version-commit
+                unk = "[version-unknown]" if before.get("version") is None else ""
+                F.append("changed-by-failed-%s-%s%s: %s [step %d %r]" % (H.step_kind(step), r[1], unk, _diff(before, after), k, step))
             if F:
                 return F
         before = after
